@@ -26,12 +26,21 @@ pub fn generate(rng: &mut Rng, tier: Tier, stats: &mut GenStats) -> Scenario {
     };
     let pf = g.not_pattern(&model, &space_base, &mut stats.rejections);
     let pf = crate::props::stack::aim_at_rooted(&mut g, &source, pf);
+    // depth behaviours: with a minimum depth shallow entries (the root included) are never fed to
+    // the negation; the underlying walk of the differential reference runs under the same behaviour
+    let deepest = tree.iter().map(|n| depth_of(&n.path)).max().unwrap_or(1);
+    let depth = match g.rng.below(15) {
+        0 => Depth::Max(g.rng.range(0, deepest + 1)),
+        1 => Depth::Min(g.rng.range(1, deepest)),
+        2 => Depth::MinMax(g.rng.range(1, deepest), g.rng.range(1, deepest + 1)),
+        _ => Depth::Unbounded,
+    };
     let walker = Walker {
         source,
         base,
         spelling: g.spelling(),
         link,
-        depth: Depth::Unbounded,
+        depth,
         order: g.order(false),
         victims: vec![],
         layers: vec![Layer::Not(pf)],
